@@ -180,6 +180,13 @@ pub fn run(args: &[String]) -> i32 {
     if !args.first().map(|x| x == "--only").unwrap_or(false) {
         done += include_sweep(&mut bad);
     }
+    // ledgers with exactly one invalid entry (LF and CRLF, root and included files): building and rendering the
+    // diagnostic must not panic
+    let (n3, bad3) = crate::c14::sweep(true);
+    done += n3 as usize;
+    for b in bad3.into_iter().take(5) {
+        bad.push(b);
+    }
     // small ledgers of every posting shape through book-keeping: only crashes count here
     let (n2, bad2) = crate::ledger::sweep(thorough, true);
     done += n2 as usize;
